@@ -21,13 +21,15 @@ const O_SET: u8 = 1; // a = ratio bits, b = method
 const O_PROBE: u8 = 2;
 const O_DRAIN: u8 = 3;
 const O_INTO_SOURCE: u8 = 4;
+const O_CLONE_SWAP: u8 = 5;
 
-static OPS: [OpSpec; 5] = [
+static OPS: [OpSpec; 6] = [
     OpSpec { name: "next", shrink: 0 },
     OpSpec { name: "set_ratio", shrink: 2 },
     OpSpec { name: "is_exhausted", shrink: 0 },
     OpSpec { name: "drain_until_exhausted", shrink: 0 },
     OpSpec { name: "into_source", shrink: 0 },
+    OpSpec { name: "replace_converter_by_its_clone", shrink: 0 },
 ];
 
 const F_RATIO_CHANGE: usize = 0;
@@ -38,6 +40,7 @@ const F_EOF_DURING_PRIMING: usize = 4;
 const F_OVERRUN: usize = 5;
 const F_CONTROL_EOF: usize = 6;
 const F_RATIO_CHANGE_BEFORE_FIRST: usize = 7;
+const F_CLONE_SWAP: usize = 8;
 
 const P_EXACT_INTEGER_POSITION: usize = 0;
 const P_AMBIGUOUS_BOUNDARY: usize = 1;
@@ -47,6 +50,7 @@ const P_DRAIN_FORMULA_PLUS_ONE: usize = 4;
 const P_DRAIN_FORMULA_EXACT: usize = 5;
 const P_INTEGER_FORMAT: usize = 6;
 const P_LONG_RUN: usize = 7;
+const P_CLONE_MID_INTERVAL: usize = 8;
 
 const Q: u32 = 64;
 
@@ -99,12 +103,83 @@ fn ctl_ratio(id: u32, idx: u64) -> f64 {
     v
 }
 
+/// The stock interpolators are not `Clone`; `Converter` is (when its parts are).  These wrappers run
+/// the real `Floor`/`Linear` code and remember the frames they hold so a clone can be rebuilt, which
+/// makes the converter's own `Clone` reachable: a clone taken mid-stream must continue exactly.
+struct CFloor<F> {
+    inner: Floor<F>,
+    left: F,
+}
+impl<F: AdFrame> CFloor<F> {
+    fn new(left: F) -> Self {
+        CFloor { inner: Floor::new(left), left }
+    }
+}
+impl<F: AdFrame> Clone for CFloor<F> {
+    fn clone(&self) -> Self {
+        CFloor::new(self.left)
+    }
+}
+impl<F: AdFrame> dasp_interpolate::Interpolator for CFloor<F>
+where
+    F::Sample: Duplex<f64>,
+{
+    type Frame = F;
+    fn interpolate(&self, x: f64) -> F {
+        self.inner.interpolate(x)
+    }
+    fn next_source_frame(&mut self, f: F) {
+        self.left = f;
+        self.inner.next_source_frame(f)
+    }
+    fn reset(&mut self) {
+        self.left = F::EQUILIBRIUM;
+        self.inner.reset()
+    }
+}
+struct CLinear<F> {
+    inner: Linear<F>,
+    left: F,
+    right: F,
+}
+impl<F: AdFrame> CLinear<F> {
+    fn new(left: F, right: F) -> Self {
+        CLinear { inner: Linear::new(left, right), left, right }
+    }
+}
+impl<F: AdFrame> Clone for CLinear<F> {
+    fn clone(&self) -> Self {
+        CLinear::new(self.left, self.right)
+    }
+}
+impl<F: AdFrame> dasp_interpolate::Interpolator for CLinear<F>
+where
+    F::Sample: Duplex<f64>,
+{
+    type Frame = F;
+    fn interpolate(&self, x: f64) -> F {
+        self.inner.interpolate(x)
+    }
+    fn next_source_frame(&mut self, f: F) {
+        self.left = self.right;
+        self.right = f;
+        self.inner.next_source_frame(f)
+    }
+    fn reset(&mut self) {
+        self.left = F::EQUILIBRIUM;
+        self.right = F::EQUILIBRIUM;
+        self.inner.reset()
+    }
+}
+
 enum Sut<F: AdFrame>
 where
     F::Sample: Duplex<f64>,
 {
     FloorDirect(Converter<ProbeSignal<F>, Floor<F>>),
     LinearDirect(Converter<ProbeSignal<F>, Linear<F>>),
+    FloorClone(Converter<ProbeSignal<F>, CFloor<F>>),
+    LinearClone(Converter<ProbeSignal<F>, CLinear<F>>),
     FloorMul(MulHz<ProbeSignal<F>, ProbeSignal<f64>, Floor<F>>),
     LinearMul(MulHz<ProbeSignal<F>, ProbeSignal<f64>, Linear<F>>),
 }
@@ -117,6 +192,8 @@ where
         match self {
             Sut::FloorDirect(c) => c.next(),
             Sut::LinearDirect(c) => c.next(),
+            Sut::FloorClone(c) => c.next(),
+            Sut::LinearClone(c) => c.next(),
             Sut::FloorMul(c) => c.next(),
             Sut::LinearMul(c) => c.next(),
         }
@@ -125,6 +202,8 @@ where
         match self {
             Sut::FloorDirect(c) => c.is_exhausted(),
             Sut::LinearDirect(c) => c.is_exhausted(),
+            Sut::FloorClone(c) => c.is_exhausted(),
+            Sut::LinearClone(c) => c.is_exhausted(),
             Sut::FloorMul(c) => c.is_exhausted(),
             Sut::LinearMul(c) => c.is_exhausted(),
         }
@@ -140,7 +219,25 @@ where
         match self {
             Sut::FloorDirect(c) => go(c, method, v),
             Sut::LinearDirect(c) => go(c, method, v),
+            Sut::FloorClone(c) => go(c, method, v),
+            Sut::LinearClone(c) => go(c, method, v),
             _ => {}
+        }
+    }
+    /// replace the converter by its clone (true if this variant can)
+    fn clone_swap(&mut self) -> bool {
+        match self {
+            Sut::FloorClone(c) => {
+                let d = c.clone();
+                *c = d;
+                true
+            }
+            Sut::LinearClone(c) => {
+                let d = c.clone();
+                *c = d;
+                true
+            }
+            _ => false,
         }
     }
 }
@@ -334,6 +431,7 @@ where
     let ctl_len = src.cfg("ctl_len", -1, 200, |r| if r.chance(1, 2) { -1 } else { r.range(0, 200) });
     let ctl_len = if ctl_len < 0 { None } else { Some(ctl_len as u64) };
     let drain_first = src.cfg("drain_first", 0, 1, |r| (len.is_some() && !mul_hz && r.chance(1, 4)) as i64) == 1;
+    let cloneable = src.cfg("cloneable_interp", 0, 1, |r| (!mul_hz && r.chance(1, 3)) as i64) == 1 && !mul_hz;
     let id = 1u32 + 16; // amplitude < 1/2 of full scale
     let (mut source, pulls): (ProbeSignal<F>, Pulls) = ProbeSignal::with(id, len, F::leaf as fn(u32, u64) -> F);
     // prime the interpolator from the source, as documented
@@ -360,6 +458,13 @@ where
         let interp = Linear::new(a, b);
         if mul_hz {
             Sut::LinearMul(source.mul_hz(interp, ctl))
+        } else if cloneable {
+            let interp = CLinear::new(a, b);
+            Sut::LinearClone(match ctor {
+                0 => source.scale_hz(interp, r0),
+                1 => source.from_hz_to_hz(interp, r0 * 48_000.0, 48_000.0),
+                _ => Converter::scale_sample_hz(source, interp, 1.0 / r0),
+            })
         } else {
             Sut::LinearDirect(match ctor {
                 0 => source.scale_hz(interp, r0),
@@ -371,6 +476,13 @@ where
         let interp = Floor::new(a);
         if mul_hz {
             Sut::FloorMul(source.mul_hz(interp, ctl))
+        } else if cloneable {
+            let interp = CFloor::new(a);
+            Sut::FloorClone(match ctor {
+                0 => source.scale_hz(interp, r0),
+                1 => source.from_hz_to_hz(interp, r0 * 48_000.0, 48_000.0),
+                _ => Converter::scale_sample_hz(source, interp, 1.0 / r0),
+            })
         } else {
             Sut::FloorDirect(match ctor {
                 0 => source.scale_hz(interp, r0),
@@ -390,7 +502,7 @@ where
             if drain_first && done == 0 {
                 return Some(Op::k(O_DRAIN));
             }
-            let w = [40u32, if mul_hz { 0 } else { 8 }, 4, if len.is_some() && !mul_hz { 2 } else { 0 }, if mul_hz { 0 } else { 1 }];
+            let w = [40u32, if mul_hz { 0 } else { 8 }, 4, if len.is_some() && !mul_hz { 2 } else { 0 }, if mul_hz { 0 } else { 1 }, if cloneable { 5 } else { 0 }];
             Some(match r.weighted(&w) as u8 {
                 O_SET => {
                     let v = if dyadic { dyadic_ratio(r) } else { free_ratio(r) };
@@ -544,6 +656,8 @@ where
                 let got: Vec<F> = match taken {
                     Sut::FloorDirect(c) => c.until_exhausted().take(400_000).collect(),
                     Sut::LinearDirect(c) => c.until_exhausted().take(400_000).collect(),
+                    Sut::FloorClone(c) => c.until_exhausted().take(400_000).collect(),
+                    Sut::LinearClone(c) => c.until_exhausted().take(400_000).collect(),
                     _ => unreachable!(),
                 };
                 // model: step until exhausted
@@ -596,6 +710,19 @@ where
                 obs.fault(F_EOF);
                 return Ok(());
             }
+            O_CLONE_SWAP => {
+                // the model does not move: the clone must stand where the original stood
+                if !s.clone_swap() {
+                    src.skip_last();
+                    obs.skipped();
+                    continue;
+                }
+                obs.tick(op.k);
+                obs.fault(F_CLONE_SWAP);
+                if m.p & ((1u128 << Q) - 1) != 0 {
+                    obs.probe(P_CLONE_MID_INTERVAL);
+                }
+            }
             O_INTO_SOURCE => {
                 if mul_hz {
                     src.skip_last();
@@ -608,6 +735,8 @@ where
                 let mut back = match taken {
                     Sut::FloorDirect(c) => c.into_source(),
                     Sut::LinearDirect(c) => c.into_source(),
+                    Sut::FloorClone(c) => c.into_source(),
+                    Sut::LinearClone(c) => c.into_source(),
                     _ => unreachable!(),
                 };
                 let (klo, khi) = m.floor_lo_hi(m.p_prev);
@@ -654,6 +783,7 @@ impl Scenario for ConverterScenario {
             "next() after the converter reported exhaustion",
             "mul_hz control stream ended",
             "ratio changed before the first output",
+            "converter replaced by its clone mid-stream (cloneable interpolator wrapper)",
         ]
     }
     fn probes(&self) -> &'static [&'static str] {
@@ -666,6 +796,7 @@ impl Scenario for ConverterScenario {
             "drain count = ceil((R+1)/r)",
             "integer sample format",
             "long run (>= 1000 outputs)",
+            "clone taken at a fractional position",
         ]
     }
     fn rule(&self) -> &'static str {
